@@ -346,7 +346,22 @@ func runC03(c *Ctx) {
 	if ura := p.Fn("commands", "uploadRangeOrAll"); ura != nil {
 		for _, r := range ReturnsOf(ura) {
 			okv := true
+			// the values a merged return can hand back, through nested φ-nodes
+			var vals []ssa.Value
+			var flat func(v ssa.Value, d int)
+			flat = func(v ssa.Value, d int) {
+				if ph, ok := v.(*ssa.Phi); ok && d < 4 {
+					for _, e := range ph.Edges {
+						flat(e, d+1)
+					}
+					return
+				}
+				vals = append(vals, v)
+			}
 			for _, v := range ReturnValues(r, 0) {
+				flat(v, 0)
+			}
+			for _, v := range vals {
 				cc, _, isRes := CallResult(v)
 				if !isRes {
 					okv = false
